@@ -202,6 +202,14 @@ pub(crate) fn wrap_single_line<'a>(
     } else {
         options.subsequent_indent
     };
+    #[cfg(feature = "verif-hooks")]
+    crate::verif::emit(
+        "wrap.para",
+        &[
+            crate::verif::n(lines.len()),
+            i64::from(line.len() < options.width && indent.is_empty()),
+        ],
+    );
     if line.len() < options.width && indent.is_empty() {
         lines.push(Cow::from(line.trim_end_matches(' ')));
     } else {
@@ -250,6 +258,16 @@ pub(crate) fn wrap_single_line_slow_path<'a>(
         split_words.collect::<Vec<_>>()
     };
 
+    #[cfg(feature = "verif-hooks")]
+    crate::verif::emit(
+        "wrap.slow",
+        &[
+            crate::verif::n(line_widths[0]),
+            crate::verif::n(line_widths[1]),
+            crate::verif::n(broken_words.len()),
+        ],
+    );
+
     let wrapped_words = options.wrap_algorithm.wrap(&broken_words, &line_widths);
 
     let mut idx = 0;
@@ -269,6 +287,8 @@ pub(crate) fn wrap_single_line_slow_path<'a>(
 
         let last_word = match words.last() {
             None => {
+                #[cfg(feature = "verif-hooks")]
+                crate::verif::emit("wrap.emit_empty", &[]);
                 // An empty line still gets the indentation.
                 lines.push(result);
                 continue;
@@ -284,6 +304,18 @@ pub(crate) fn wrap_single_line_slow_path<'a>(
             .map(|word| word.len() + word.whitespace.len())
             .sum::<usize>()
             - last_word.whitespace.len();
+
+        #[cfg(feature = "verif-hooks")]
+        crate::verif::emit(
+            "wrap.emit",
+            &[
+                crate::verif::n(idx),
+                crate::verif::n(len),
+                crate::verif::n(last_word.whitespace.len()),
+                crate::verif::n(last_word.penalty.len()),
+                crate::verif::n(words.len()),
+            ],
+        );
 
         result += &line[idx..idx + len];
 
